@@ -118,8 +118,9 @@ func (v *DataModelView) DrawRelation(
 	entity *sysl.Type_Relation,
 	relationshipMap map[string]map[string]RelationshipParam,
 ) {
+	// The alias is keyed by the full name, as for tuples: tables of different applications can share a short name.
 	entityTokens := strings.Split(viewParam.EntityName, ".")
-	encEntity := v.UniqueVarForAppName(entityTokens[len(entityTokens)-1])
+	encEntity := v.UniqueVarForAppName(entityTokens...)
 	v.StringBuilder.WriteString(fmt.Sprintf("%s \"%s\" as %s %s(%s,%s)%s {\n", classString, viewParam.EntityName,
 		encEntity, entityLessThanArrow, viewParam.EntityHeader, viewParam.EntityColor, entityGreaterThanArrow))
 
@@ -133,7 +134,9 @@ func (v *DataModelView) DrawRelation(
 		attrType := entity.AttrDefs[attrName]
 		var s string
 		if typeRef := attrType.GetTypeRef(); typeRef != nil {
-			targetEntity := v.UniqueVarForAppName(typeRef.GetRef().Path[0])
+			// a foreign key names a table of the same application
+			targetName := append(append([]string{}, entityTokens[:len(entityTokens)-1]...), typeRef.GetRef().Path[0])
+			targetEntity := v.UniqueVarForAppName(targetName...)
 			s = fmt.Sprintf("+ %s : **%s.%s** <<FK>>\n",
 				attrName,
 				typeRef.GetRef().Path[0],
